@@ -6,8 +6,10 @@ Two harnesses, both on the deterministic simulator (lib/simloop.py: virtual cloc
            nested/overlapping ``disarm()`` contexts (with or without a preceding register_activity, as the
            connect hooks of ``open_connection`` do) runs as tasks under the virtual clock.
 "handler"  the real ``ProxyConnectionHandler.handle_client`` with a scripted layer, fake streams and a stub
-           master whose hooks take generated virtual durations (lib/simhandler.py); activity = every event
-           delivered to the layer, hooks = everything passing through ``handle_hook``.
+           master whose hooks take generated virtual durations and which intercepts flows carried by layer hooks
+           and resumes them after a generated virtual time (lib/simhandler.py); activity = every event delivered to
+           the layer, hooks = everything passing through ``handle_hook`` from its start until it returns (i.e.
+           including the time a flow waits for its resume).
 
 Oracle: a reference model replayed over the *recorded* instants (so scheduling jitter is part of the input):
 r = last reset (creation, activity, or hook count returning to 0), open = hooks in progress.
@@ -30,7 +32,8 @@ TECHNIQUE = "Hypothesis schedule generation on a virtual-clock asyncio simulator
 RULE = ("schedules of <=12 activity/hook operations (hooks nested/overlapping incl. non-nested pairs whose first-started "
         "ends first while the second outlasts the timeout, with and without preceding activity) "
         "at instants drawn around multiples of timeout/8, timeouts 1-20 s, per-wake-up timer overshoot from "
-        "{0,1us,1ms,0.25s}; plus full connection-handler plans (scripted layer, fake streams, hook durations). "
+        "{0,1us,1ms,0.25s}; plus full connection-handler plans (scripted layer, fake streams, hook durations, flows "
+        "intercepted by the addon and resumed after a generated time below/above the timeout). "
         "non-trivial = >=2 hooks overlap, or a hook is in progress when the idle deadline passes; distinct by the "
         "ordered pattern of activity/hook-start/hook-end/fire events")
 ASSUMPTIONS = ["asyncio primitives (Event, sleep, Task) are correct; only their timing is simulated",
@@ -209,7 +212,7 @@ def check_handler(case, ctx):
                 rec.append((t, "stop"))  # the watchdog has been cancelled by handle_client
                 break
             rec.append((t, "hs", r[4]))
-        elif kind == "hook_end":
+        elif kind == "hook_done":  # handle_hook returned: addons have run and the flow (if any) is not intercepted any more
             rec.append((t, "he", r[4]))
         elif kind == "timeout":
             rec.append((t, "fire"))
@@ -228,6 +231,10 @@ def check_handler(case, ctx):
     classify(ctx, ("handler", pat), overlap, at_deadline)
     if fired:
         ctx.cls("handler:timed-out")
+    t_int = {r[4]: r[0] for r in w.trace if r[1] == "intercept"}
+    for r in w.trace:
+        if r[1] == "resume" and r[4] in t_int:
+            ctx.cls("handler:flow-intercepted" + ("-longer-than-timeout" if r[0] - t_int[r[4]] >= timeout else ""))
 
 
 def check_case(case, ctx):
